@@ -307,6 +307,15 @@ func TestVerifC07Bulk(t *testing.T) {
 		c07RunHistory(r, sp, "preload1100>"+strings.Join(n, ">"), h, 1100, "", false)
 		r.Count("histories", 1)
 	}
+	// one batch add of more records than any internal chunk size (1000): all or nothing
+	{
+		var big []detection.Signature
+		for i := 0; i < 1500; i++ {
+			big = append(big, c06Sig(sp, fmt.Sprintf("N%05d", i), i%2, i%3, i%2))
+		}
+		c07RunHistory(r, sp, "preload1>AddBatch(1500 new)", []storeOp{{Kind: "batch", Sigs: big, Name: "AddBatch(1500 new)"}}, 1, "", false)
+		r.Count("histories", 1)
+	}
 	// record counts that are exact multiples of the rebuild's chunk size (1000): the last chunk
 	// commit is then the last write of the rebuild and the trailing batch is empty
 	for _, pre := range []int{1000, 2000} {
